@@ -79,7 +79,7 @@ def _to_violation(ex: BaseException) -> typing.Optional[Violation]:
     """An unexpected exception that passed through pydsdl code is a finding about pydsdl, not about the harness."""
     if isinstance(ex, Violation):
         return ex
-    if isinstance(ex, (HarnessError, KeyboardInterrupt, SystemExit, MemoryError)):
+    if isinstance(ex, (HarnessError, KeyboardInterrupt, SystemExit)):
         return None
     frames = core.pydsdl_frames(ex)
     if frames:
@@ -100,6 +100,10 @@ def run_part(part: Part, ctx: Ctx, stats: Stats, examples: int, known: typing.Di
 
     signal.signal(signal.SIGALRM, _alarm)
     excluded: typing.Set[str] = set()
+    t_part = time.time()
+    # once a violation has been found, enumerating further root causes must not eat the whole wall budget (a defect that makes
+    # every case slow would otherwise keep the shard busy until it is killed and its findings are lost)
+    after_finding_limit = 120.0 if ctx.tier == "quick" else 900.0
 
     def guard(case: typing.Any, thunk: typing.Callable[[], typing.Any]) -> typing.Tuple[bool, typing.Any]:
         """Runs thunk; returns (True, result), or (False, None) when it failed in a known / already reported way."""
@@ -130,6 +134,8 @@ def run_part(part: Part, ctx: Ctx, stats: Stats, examples: int, known: typing.Di
                         "excluded_after_report", {}
                     )
                     bucket[v.signature] = bucket.get(v.signature, 0) + 1
+                    if time.time() - t_part > after_finding_limit:
+                        raise PartAborted()
                 return False, None
             current["case"] = case
             current["violation"] = v
@@ -192,6 +198,8 @@ def run_part(part: Part, ctx: Ctx, stats: Stats, examples: int, known: typing.Di
 
     signal.signal(signal.SIGALRM, _alarm)
     for attempt in range(MAX_SIGNATURES_PER_PART):
+        if attempt > 0 and time.time() - t_part > after_finding_limit:
+            return
         salt = "%s:%d" % (part.name, attempt)
         s = shard_seed(ctx.seed, ctx.prop, ctx.shard, salt)
         current.clear()
@@ -213,7 +221,8 @@ def run_part(part: Part, ctx: Ctx, stats: Stats, examples: int, known: typing.Di
                 test()
             return
         except PartAborted:
-            stats.parts.setdefault(part.name, {"evaluations": 0, "nontrivial": 0})["aborted_inconclusive"] = True
+            if not excluded:
+                stats.parts.setdefault(part.name, {"evaluations": 0, "nontrivial": 0})["aborted_inconclusive"] = True
             return
         except Violation as v:
             case = current.get("case")
@@ -262,8 +271,14 @@ def run_fuzz(part: Part, ctx: Ctx, stats: "Stats", guard: typing.Any, examples: 
         cmd += ["--corpus", corpus]
     if dict_path:
         cmd += ["--dict", dict_path]
+    def lift_memory_limit() -> None:
+        import resource
+
+        _s, h = resource.getrlimit(resource.RLIMIT_AS)
+        resource.setrlimit(resource.RLIMIT_AS, (h, h))
+
     try:
-        subprocess.run(cmd, stdout=subprocess.DEVNULL, stderr=subprocess.DEVNULL, timeout=3 * 3600)
+        subprocess.run(cmd, stdout=subprocess.DEVNULL, stderr=subprocess.DEVNULL, timeout=3 * 3600, preexec_fn=lift_memory_limit)
     except subprocess.TimeoutExpired:
         p["fuzz"] = "campaign hit the wall cap (inconclusive)"
     st = {}
@@ -334,6 +349,13 @@ def main(argv: typing.Optional[typing.List[str]] = None) -> int:
     a = ap.parse_args(argv)
 
     t0 = time.time()
+    try:  # a runaway allocation in the code under test becomes a MemoryError inside the case instead of an OOM kill of the shard
+        import resource
+
+        _soft, _hard = resource.getrlimit(resource.RLIMIT_AS)
+        resource.setrlimit(resource.RLIMIT_AS, (4 * 2**30, _hard))  # soft limit only: child processes may lift it again
+    except (ImportError, ValueError, OSError):
+        pass
     result: typing.Dict[str, typing.Any] = {"shard": a.shard, "status": "error"}
     if a.scratch:
         scratch = os.path.join(a.scratch, "s%d" % a.shard)
